@@ -280,8 +280,9 @@ def execute(plan, tape):
     sig = sim.schedule_signature()
     res.inter_sig = digest_of(sig)
     res.nontrivial = sim.stats.get('probe.completion_order_permuted', 0) > 0
-    res.digest = digest_of(sim.log, [fingerprint(x) for x in (out or [])] if isinstance(out, list) else repr(type(out)),
-                           res.vclass, res.signature)
+    fps = [fingerprint(x) for x in (out or [])] if isinstance(out, (list, tuple)) else repr(type(out))
+    res.digest = digest_of(sim.log, fps, res.vclass, res.signature)
+    res.rdigest = digest_of(fps, res.vclass, res.signature)
     return res
 
 
